@@ -67,10 +67,20 @@ def tree_dir():
     return d
 
 
-def prune_builds(keep=4):
-    ds = sorted([d for d in BUILD.glob('t_*') if d.is_dir()], key=lambda d: (d / '.stamp').stat().st_mtime if (d / '.stamp').exists() else 0)
+def prune_builds(keep=4, min_age_s=5400):
+    """drops build directories of older trees; a directory used in the last hours may belong to a check that is still running"""
+    now = time.time()
+
+    def age_key(d):
+        st = d / '.stamp'
+        return st.stat().st_mtime if st.exists() else d.stat().st_mtime
+    ds = sorted([d for d in BUILD.glob('t_*') if d.is_dir()], key=age_key)
     for d in ds[:-keep]:
-        shutil.rmtree(d, ignore_errors=True)
+        try:
+            if now - age_key(d) > min_age_s:
+                shutil.rmtree(d, ignore_errors=True)
+        except OSError:
+            pass
 
 
 _dep_cache = {}
